@@ -53,6 +53,9 @@ func vNewSession(budget int, auth []byte) *vSession {
 	s.relay.refuseOpt = vParam("refuse", 0) != 0
 	if vParam("junk", 0) != 0 {
 		s.relay.junkAt = vIntRange("relay_truncates_kth_frame_at_new_rendezvous", 0, vParam("junk", 0))
+		if s.relay.junkAt == 0 {
+			s.relay.junkAt2 = vIntRange("relay_truncates_kth_frame_in_refresh_cycle", 0, vParam("junk", 0)+1)
+		}
 	}
 	if budget > 0 {
 		s.relay.skip = vIntRange("relay_skip", 0, vParam("maxskip", 0))
